@@ -5,6 +5,7 @@ pub mod memsource;
 pub mod codec;
 pub mod tilesets;
 pub mod containers;
+pub mod pipeline;
 pub mod checks;
 
 pub use ctx::{Ctx, Tier};
